@@ -66,6 +66,144 @@ fn c19_eq_prefix() -> Result<(), String> {
     Ok(())
 }
 
+// ---------------------------------------------------------------------------------------------------------
+// C19, BOUNDED stand-in (not a proof): exhaustive enumeration, by execution of the real crate, of every map over the
+// 7 prefixes of length <= 2 of (u8,u8) with values in {0,1}, each built by 4 different histories (different
+// arena shapes, leftover value-less nodes, recycled slots, host bits in the stored representation), and of
+// every ordered pair (state, canonical state): `==` must agree with equality of the entry sequences of an
+// independent oracle, clone() must be equal and independent, collect() of the own entries must be equal.
+// ---------------------------------------------------------------------------------------------------------
+const KEYS: [(u8, u8); 7] = [(0x00, 0), (0x00, 1), (0x80, 1), (0x00, 2), (0x40, 2), (0x80, 2), (0xc0, 2)];
+
+/// oracle order: a prefix before what it covers, 0-branch before 1-branch (independent of the crate)
+fn okey(p: (u8, u8)) -> Vec<u8> {
+    (0..p.1).map(|i| (p.0 >> (7 - i)) & 1).collect()
+}
+
+/// digit d of state code c (base 3): 0 = absent, 1 = value 0, 2 = value 1
+fn digit(c: u32, k: usize) -> u32 {
+    (c / 3u32.pow(k as u32)) % 3
+}
+
+fn oracle(c: u32, host: u8) -> Vec<((u8, u8), u8)> {
+    let mut v: Vec<((u8, u8), u8)> = Vec::new();
+    for (k, key) in KEYS.iter().enumerate() {
+        let d = digit(c, k);
+        if d > 0 {
+            v.push(((key.0 | (if key.1 < 8 { host & (0xffu8 >> key.1) } else { 0 }), key.1), (d - 1) as u8));
+        }
+    }
+    v.sort_by_key(|e| okey(((e.0).0 & !(0xffu16 >> (e.0).1) as u8, (e.0).1)));
+    v
+}
+
+/// history h: 0 ascending inserts, 1 descending inserts, 2 all keys then remove_keep_tree of the absent ones (leftover
+/// nodes), 3 all keys then remove of the absent ones and re-insert of the present ones (recycled slots);
+/// `host`: bits or-ed into the host part of every stored representation
+fn build(c: u32, h: u32, host: u8) -> PrefixMap<P, u8> {
+    let mut m: PrefixMap<P, u8> = PrefixMap::new();
+    let rep = |key: (u8, u8)| (key.0 | (host & (0xffu8 >> key.1)), key.1);
+    match h {
+        0 => {
+            for (k, key) in KEYS.iter().enumerate() {
+                if digit(c, k) > 0 { m.insert(rep(*key), (digit(c, k) - 1) as u8); }
+            }
+        }
+        1 => {
+            for (k, key) in KEYS.iter().enumerate().rev() {
+                if digit(c, k) > 0 { m.insert(rep(*key), (digit(c, k) - 1) as u8); }
+            }
+        }
+        2 => {
+            for (k, key) in KEYS.iter().enumerate() {
+                m.insert(rep(*key), if digit(c, k) > 0 { (digit(c, k) - 1) as u8 } else { 7 });
+            }
+            for (k, key) in KEYS.iter().enumerate() {
+                if digit(c, k) == 0 { m.remove_keep_tree(key); }
+            }
+        }
+        _ => {
+            for key in KEYS.iter() { m.insert(*key, 9); }
+            for key in KEYS.iter().rev() { m.remove(key); }
+            for (k, key) in KEYS.iter().enumerate() {
+                if digit(c, k) > 0 { m.insert(rep(*key), (digit(c, k) - 1) as u8); }
+            }
+        }
+    }
+    m
+}
+
+fn c19_bounded() -> Result<(), String> {
+    let n: u32 = 3u32.pow(7);
+    let mut evals: u64 = 0;
+    let mut unequal_expected: u64 = 0;
+    let mut equal_expected: u64 = 0;
+    // canonical operands (history 0, no host bits) and, for a sample of codes, host-bit variants
+    let canon: Vec<PrefixMap<P, u8>> = (0..n).map(|c| build(c, 0, 0)).collect();
+    let canon_o: Vec<Vec<((u8, u8), u8)>> = (0..n).map(|c| oracle(c, 0)).collect();
+    for c in 0..n {
+        for h in 0..4u32 {
+            for host in [0u8, 0x15u8] {
+                if host != 0 && h != 0 && h != 2 { continue; }
+                let a = build(c, h, host);
+                let ao = oracle(c, host);
+                // the crate's own view of a must be the oracle's (iteration = stored entries in order)
+                let seen: Vec<((u8, u8), u8)> = a.iter().map(|(p, v)| (*p, *v)).collect();
+                if seen != ao {
+                    return Err(format!("state code={c} history={h} host={host:#x}: iter() yields {seen:?}, expected {ao:?}"));
+                }
+                for d in 0..n {
+                    let expect = ao == canon_o[d as usize];
+                    let got_ab = a == canon[d as usize];
+                    let got_ba = canon[d as usize] == a;
+                    evals += 2;
+                    if expect { equal_expected += 1 } else { unequal_expected += 1 }
+                    if (c == 1000 && h == 2 && host == 0 && (d == 1000 || d == 271)) || (c == 5 && h == 0 && host == 0x15 && d == 5) {
+                        println!("SAMPLE a: code {c} history {h} host {host:#x} entries {ao:?} | b: code {d} history 0 entries {:?} | a == b -> {got_ab}, b == a -> {got_ba}, oracle {expect}", canon_o[d as usize]);
+                    }
+                    if got_ab != expect || got_ba != expect {
+                        return Err(format!("a = code {c} history {h} host {host:#x} entries {ao:?}; b = code {d} entries {:?}: a == b is {got_ab}, b == a is {got_ba}, expected {expect}", canon_o[d as usize]));
+                    }
+                }
+                // reflexive, and equal to the same contents built by every other history
+                if !(a == a) { return Err(format!("code {c} history {h}: a == a is false")); }
+                for h2 in 0..4u32 {
+                    let b = build(c, h2, host);
+                    evals += 1;
+                    if !(a == b) { return Err(format!("code {c} host {host:#x}: history {h} != history {h2} although both store {ao:?}")); }
+                }
+                // clone: equal, and independent in both directions
+                let mut cl = a.clone();
+                evals += 1;
+                if !(cl == a) || cl.len() != a.len() { return Err(format!("code {c} history {h}: clone() is not equal to the original")); }
+                cl.insert((0x20, 3), 5);
+                if let Some(e) = ao.first() { cl.insert(e.0, 6); }
+                let after: Vec<((u8, u8), u8)> = a.iter().map(|(p, v)| (*p, *v)).collect();
+                if after != ao || a.len() != ao.len() { return Err(format!("code {c} history {h}: writing to the clone changed the original: {after:?}")); }
+                if cl == a { return Err(format!("code {c} history {h}: clone with an extra entry still equals the original")); }
+                // collect round trip (map and set)
+                let rt: PrefixMap<P, u8> = a.iter().map(|(p, v)| (*p, *v)).collect();
+                evals += 1;
+                if !(rt == a) || !(a == rt) { return Err(format!("code {c} history {h} host {host:#x}: collect() of the own entries is not equal")); }
+                let sa: PrefixSet<P> = a.keys().copied().collect();
+                let sb: PrefixSet<P> = sa.iter().copied().collect();
+                evals += 1;
+                if !(sa == sb) || sa.len() != ao.len() { return Err(format!("code {c} history {h}: set collect round trip not equal")); }
+            }
+        }
+    }
+    // sets: every pair of key subsets
+    let sets: Vec<PrefixSet<P>> = (0..128u32).map(|b| KEYS.iter().enumerate().filter(|(k, _)| b >> k & 1 == 1).map(|(_, p)| *p).collect()).collect();
+    for x in 0..128usize {
+        for y in 0..128usize {
+            evals += 1;
+            if (sets[x] == sets[y]) != (x == y) { return Err(format!("sets with key masks {x:#b} and {y:#b}: == is {}", sets[x] == sets[y])); }
+        }
+    }
+    println!("STATS c19_bounded evaluations={evals} pairs_expected_equal={equal_expected} pairs_expected_unequal={unequal_expected} states={} histories=4 exhaustive=true", n);
+    Ok(())
+}
+
 fn c04_entry_remove() -> Result<(), String> {
     let mut m: PrefixMap<P, u8> = PrefixMap::new();
     m.insert((0x80, 1), 1);
@@ -224,6 +362,7 @@ fn main() {
     let table: Vec<(&str, fn() -> Result<(), String>)> = vec![
         ("c16_leak", c16_leak),
         ("c19_eq_prefix", c19_eq_prefix),
+        ("c19_bounded", c19_bounded),
         ("c04_entry_remove", c04_entry_remove),
         ("c04_entry_remove_reinsert", c04_entry_remove_reinsert),
         ("c04_view_remove", c04_view_remove),
